@@ -19,7 +19,9 @@ KEY_DASH = "C15:'-' between two numeric parts (vYYYY.INC0[-PATCH], YYYY0M-BUILD)
 QUICK = ["vYYYY.0M.PATCH[-TAG[NUM]]", "MAJOR.MINOR.PATCH[PYTAGNUM]", "vYYYY0M.BUILD[-TAG]", "YYYY.MM[.INC0]", "vMAJOR.MINOR[.PATCH[-TAGNUM]]",
          "YYYY.0M.0D", "vYY.BLD[-PYTAGNUM]",
          # one pattern per entry of the zero-padding substitution table (0W, 0U, 0V, 00J; 0M, 0D, BUILD, TAG are above)
-         "YYYY.0W.PATCH", "YYYY.0U.PATCH", "GGGG.0V.PATCH", "YYYY.00J"]
+         "YYYY.0W.PATCH", "YYYY.0U.PATCH", "GGGG.0V.PATCH", "YYYY.00J",
+         # tag groups with '.' separators (what is left of the group after TAG/NUM moved to [PYTAGNUM] must vanish)
+         "MAJOR.MINOR.PATCH[.TAG]", "MAJOR.MINOR.PATCH[-TAG.NUM]"]
 DASHED = ["vYYYY.INC0[-PATCH]"]
 
 
@@ -45,8 +47,10 @@ def obligations(tier):
     t = 300 if tier == "quick" else 1200
     hi = 99 if tier == "quick" else 999
     pats = QUICK if tier == "quick" else sorted(set(QUICK + [p for p in grammar.G_DOC if p not in DASHED]))
+    small = {"MAJOR.MINOR.PATCH[.TAG]", "MAJOR.MINOR.PATCH[-TAG.NUM]", "YYYY.0W.PATCH", "YYYY.0U.PATCH", "GGGG.0V.PATCH"}
     for pat in pats:
-        for ints, extra, label in _c02.shards(pat, hi, tier):
+        # the patterns added for the substitution table / tag separators use one-digit free parts in the quick tier (one shard each)
+        for ints, extra, label in _c02.shards(pat, 9 if (tier == "quick" and pat in small) else hi, tier):
             obs.append(make(pat, ints, extra, label, t))
     if finding_open(KEY_DASH):
         for pat in DASHED:
